@@ -83,8 +83,12 @@ def outputs {κ ν : Type} [DecidableEq κ] (f : κ → ν) (cap : Option Nat) (
 def Coherent {κ ν : Type} (f : κ → ν) (c : Lru κ ν) : Prop := ∀ e ∈ c.entries, e.2 = f e.1
 
 /-- `maxsize` as written in the source: digits or `None`. -/
+def parseNat (s : Str) : Option Nat :=
+  if s.isEmpty then none
+  else s.foldl (fun acc c => acc.bind fun n => if c.isDigit then some (n * 10 + (c.toNat - 48)) else none) (some 0)
+
 def parseCap (s : String) : Option (Option Nat) :=
-  if s = "None" then some none else s.toNat?.map some
+  if s.toList = "None".toList then some none else (parseNat s.toList).map some
 
 /-- capacity of a cached function of the current source (`Pyxv.Gen.lruCacheSizes`) -/
 def capOf (name : String) : Option (Option Nat) :=
@@ -196,15 +200,20 @@ def nsAppend (s : SurveyState) : SurveyState :=
 
 def stripQuotes (v : Str) : Str := v.filter fun c => c != '"' && c != '\''
 
+/-- one declaration `prefix=uri` (survey.py:319-323: `ns.split("=")` has two parts, the first non-empty) -/
+def parseDecl (ns : Str) : Option (Str × Str) :=
+  match splitOnChar '=' ns with
+  | [k, v] => if k ≠ [] then some (k, v) else none
+  | _ => none
+
+/-- the (key, value) pairs of the dict comprehension (survey.py:326-331), in order -/
+def nsPairs (base : List (Str × Str)) (tokens : List Str) : List (Str × Str) :=
+  ((tokens.filterMap parseDecl).filter fun p => decide (("xmlns:".toList ++ p.1) ∉ base.map (·.1))).map
+    fun p => ("xmlns:".toList ++ p.1, stripQuotes p.2)
+
 /-- `get_nsmap` (survey.py:318-335): `NSMAP.copy()` updated with the dict comprehension over the declarations. -/
 def nsmapOf (base : List (Str × Str)) (tokens : List Str) : List (Str × Str) :=
-  let nslist := tokens.filterMap fun ns =>
-    match splitOnChar '=' ns with
-    | [k, v] => if k ≠ [] then some (k, v) else none
-    | _ => none
-  let fresh := nslist.filter fun p => decide (("xmlns:".toList ++ p.1) ∉ base.map (·.1))
-  let comp := asetAll [] (fresh.map fun p => ("xmlns:".toList ++ p.1, stripQuotes p.2))
-  asetAll base comp
+  asetAll base (asetAll [] (nsPairs base tokens))
 
 def baseNsmap : List (Str × Str) := Pyxv.Gen.nsmap.map fun p => (p.1.toList, p.2.toList)
 
@@ -235,7 +244,7 @@ structure XmlObs where
 
 def render (s : SurveyState) : XmlObs :=
   { nsmap := match s.namespaces with
-      | some toks => if toks.isEmpty then baseNsmap else nsmapOf baseNsmap toks
+      | some toks => nsmapOf baseNsmap toks      -- no declaration: `nsmapOf base [] = base`
       | none => baseNsmap
     staticInstances := (s.lists.filter fun l => !l.2).map (·.1)
     itemsetSelects := s.selects.map fun q => (q.name, !q.itemset.isEmpty) }
